@@ -97,6 +97,15 @@ func (fr *Frame) callCommon(in ssa.Instruction, cc *ssa.CallCommon) *Val {
 		for _, a := range cc.Args {
 			args = append(args, fr.val(a))
 		}
+		// guards can be stated at a builtin when the pattern names it in full ("builtin.delete")
+		if fr.c != nil {
+			for _, ac := range fr.c.AtCalls {
+				if strings.HasPrefix(ac.Callee, "builtin.") && !ac.After {
+					fr.atCallAsserts(in, cc, args, nil)
+					break
+				}
+			}
+		}
 		return fr.builtin(in, b, args, resT)
 	}
 	callee, args, closure := fr.resolveCallee(cc)
@@ -559,7 +568,7 @@ func (fr *Frame) checkPreClosure(in ssa.Instruction, callee *ssa.Function, c *Co
 		vc.callCount[fmt.Sprintf("%s#%d", key, k)] = n + 1
 		pos := vc.P.SSA.Fset.Position(in.Pos())
 		vc.addObl(&Obligation{Kind: "pre", Anchor: fmt.Sprintf("%s%s#%d/req%d", tag, c.Func, n, k), Props: c.ClauseProps(rq), Desc: fmt.Sprintf("precondition of %s: %s (call at %s:%d)", c.Func, rq.Src, shortFile(pos.Filename), pos.Line),
-			File: pos.Filename, Line: pos.Line, Goals: []Goal{{fr.here(), cond}}, Mark: vc.S.Mark()})
+			File: pos.Filename, Line: pos.Line, Goals: []Goal{{Reach: fr.here(), Cond: cond, Where: fmt.Sprintf("%s:%d", shortFile(pos.Filename), pos.Line)}}, Mark: vc.S.Mark()})
 		fr.assume(cond)
 	}
 	return env
@@ -591,7 +600,7 @@ func (fr *Frame) applyContract(in ssa.Instruction, callee *ssa.Function, cc *ssa
 			props = fr.c.Props // preconditions of library contracts belong to the caller's property
 		}
 		vc.addObl(&Obligation{Kind: "pre", Anchor: fmt.Sprintf("%s#%d/req%d", c.Func, n, k), Props: props, Desc: fmt.Sprintf("precondition of %s: %s (call at %s:%d)", c.Func, rq.Src, shortFile(pos.Filename), pos.Line),
-			File: pos.Filename, Line: pos.Line, Goals: []Goal{{fr.here(), cond}}, Mark: vc.S.Mark()})
+			File: pos.Filename, Line: pos.Line, Goals: []Goal{{Reach: fr.here(), Cond: cond, Where: fmt.Sprintf("%s:%d", shortFile(pos.Filename), pos.Line)}}, Mark: vc.S.Mark()})
 		fr.assume(cond)
 	}
 	// effects
@@ -834,9 +843,38 @@ func (fr *Frame) atCallAsserts(in ssa.Instruction, cc *ssa.CallCommon, args []*V
 	if fr.c == nil || len(fr.c.AtCalls) == 0 {
 		return
 	}
-	vc := fr.vc
 	name := calleeName(cc, callee)
-	occ := fr.occurrence(in, name)
+	fr.atPointAsserts(in, name, fr.occurrence(in, name), args)
+}
+
+// atMapUpdate: guards stated at a map assignment m[k] = v through the pseudo-callee "builtin.mapupdate"
+// ($0 the map, $1 the key, $2 the value); occurrences are counted over the function's map assignments.
+func (fr *Frame) atMapUpdate(x *ssa.MapUpdate) {
+	if fr.c == nil {
+		return
+	}
+	want := false
+	for _, ac := range fr.c.AtCalls {
+		if strings.HasPrefix(ac.Callee, "builtin.mapupdate") && !ac.After {
+			want = true
+		}
+	}
+	if !want {
+		return
+	}
+	occ := 0
+	for _, b := range fr.fn.Blocks {
+		for _, other := range b.Instrs {
+			if mu, ok := other.(*ssa.MapUpdate); ok && mu != x && int(mu.Pos()) < int(x.Pos()) {
+				occ++
+			}
+		}
+	}
+	fr.atPointAsserts(x, "builtin.mapupdate", occ, []*Val{fr.val(x.Map), fr.val(x.Key), fr.val(x.Value)})
+}
+
+func (fr *Frame) atPointAsserts(in ssa.Instruction, name string, occ int, args []*Val) {
+	vc := fr.vc
 	for k, ac := range fr.c.AtCalls {
 		if ac.After || !calleeMatchesOcc(name, ac.Callee, occ) {
 			continue
@@ -888,7 +926,7 @@ func (fr *Frame) atCallAsserts(in ssa.Instruction, cc *ssa.CallCommon, args []*V
 		vc.callCount[ck] = n + 1
 		pos := vc.P.SSA.Fset.Position(in.Pos())
 		vc.addObl(&Obligation{Kind: "guard", Anchor: fmt.Sprintf("%s#%d/a%d", ac.Callee, n, k), Props: fr.c.ClauseProps(ac.Cl), Desc: fmt.Sprintf("at call %s: %s (%s:%d)", ac.Callee, ac.Cl.Src, shortFile(pos.Filename), pos.Line),
-			File: pos.Filename, Line: pos.Line, Goals: []Goal{{fr.here(), cond}}, Mark: vc.S.Mark()})
+			File: pos.Filename, Line: pos.Line, Goals: []Goal{{Reach: fr.here(), Cond: cond, Where: fmt.Sprintf("%s:%d", shortFile(pos.Filename), pos.Line)}}, Mark: vc.S.Mark()})
 		fr.assume(cond)
 	}
 }
@@ -1020,7 +1058,7 @@ func (fr *Frame) afterCall(in ssa.Instruction, cc *ssa.CallCommon, args []*Val, 
 		vc.callCount[ck] = n + 1
 		pos := vc.P.SSA.Fset.Position(in.Pos())
 		vc.addObl(&Obligation{Kind: "guard", Anchor: fmt.Sprintf("after:%s#%d/a%d", ac.Callee, n, k), Props: fr.c.ClauseProps(ac.Cl), Desc: fmt.Sprintf("after call %s: %s (%s:%d)", ac.Callee, ac.Cl.Src, shortFile(pos.Filename), pos.Line),
-			File: pos.Filename, Line: pos.Line, Goals: []Goal{{fr.here(), cond}}, Mark: vc.S.Mark()})
+			File: pos.Filename, Line: pos.Line, Goals: []Goal{{Reach: fr.here(), Cond: cond, Where: fmt.Sprintf("%s:%d", shortFile(pos.Filename), pos.Line)}}, Mark: vc.S.Mark()})
 		fr.assume(cond)
 	}
 }
